@@ -12,10 +12,12 @@
 (*                                                                                            *)
 (* I-level (shaped like proxy/plan): Prune(R,c,fx) follows getFindTableIndexesFunc,           *)
 (* adjustShardIndex/EqualStart, getShardBetweenExprRouteResult, getPatternInRouteResult and   *)
-(* mergeBinaryOperationRouteResult.  fx = FALSE is the code as written, fx = TRUE is the code *)
-(* with the two proposed repairs (EqualStart tests "first instant of the period"; NOT BETWEEN *)
-(* with reversed bounds routes everywhere).  An I-level unsoundness is only a candidate; the  *)
-(* verdict comes from replaying the case on the real planner.                                 *)
+(* mergeBinaryOperationRouteResult.  fx = TRUE is the code as it is now (after the repairs    *)
+(* bf55534: EqualStart of the calendar shards tests "first instant of the period", and        *)
+(* 2551487: NOT BETWEEN with reversed bounds routes everywhere); fx = FALSE is the code       *)
+(* before those repairs, kept so that TLC can show what the repairs fixed.  An I-level        *)
+(* unsoundness is only a candidate; the verdict comes from replaying the case on the real     *)
+(* planner.                                                                                   *)
 (*                                                                                            *)
 (* Keys.  hash/mod/range rules: small integers.  Calendar rules: an instant is the integer    *)
 (* K = yyyymmdd*10 + tod with tod 0 = 00:00:00, 5 = 12:00:00, 9 = 23:59:59 (order of K = order *)
@@ -285,7 +287,7 @@ PruneLeaf(R, c, fx) ==
               IF ~fa.ok \/ ~fb.ok THEN Rejected
               ELSE IF ~c.neg
                    THEN Res(FALSE, TRUE, (IF fa.idx > fb.idx THEN fb.idx ELSE fa.idx)..(IF fa.idx > fb.idx THEN fa.idx ELSE fb.idx))
-                   ELSE IF fx /\ c.a > c.b THEN Res(FALSE, TRUE, Tables(R))  \* repaired: empty interval excludes nothing
+                   ELSE IF fx /\ fa.idx > fb.idx THEN Res(FALSE, TRUE, Tables(R))  \* repaired (2551487): reversed bounds exclude nothing
                    ELSE LET swap == fa.idx > fb.idx
                             start == IF swap THEN Adjust(R, c.b, fb.idx, fx) ELSE Adjust(R, c.a, fa.idx, fx)
                             last == IF swap THEN fa.idx ELSE fb.idx
@@ -339,7 +341,7 @@ InsertOnce(R, rows) ==
              /\ \A p \in e.put : p[2] = i =>
                   /\ p[1] \in Tables(R)
                   /\ MustRoute(R, Leaf("cmp", "k", "=", FALSE, rows[i].v, 0, {}, "lit")) \subseteq {p[1]}
-                  /\ RoutedI(R, Leaf("cmp", "k", "=", FALSE, rows[i].v, 0, {}, "lit"), FALSE).set = {p[1]}
+                  /\ RoutedI(R, Leaf("cmp", "k", "=", FALSE, rows[i].v, 0, {}, "lit"), TRUE).set = {p[1]}
 
 (* ------------------------------------------------------------------ C04: global tables *)
 (* Ly = [ns, rs, locs, dbs]: ns namespace slices (1..ns), rs the rule's slice list (indexes   *)
